@@ -52,7 +52,107 @@ def h_compose(N, T):
     return Harness("aff_compose_%s_%d" % (T, N), args, body, out=(T, nv), meta={"kind": "compose", "N": N, "T": T})
 
 
-def h_factory(N, T, which):
+# argument lists of mixed arithmetic types (C09.factory-mixed): each entry must be the ONE direct conversion of its own
+# argument to T - not a conversion through some type computed from the whole argument list
+MIXED = {1: [("int",)], 2: [("int", "unsigned"), ("int", "float"), ("std::int64_t", "double")],
+         3: [("int", "unsigned", "std::uint64_t"), ("float", "int", "double")],
+         4: [("int", "unsigned", "std::int64_t", "float")]}
+DIRECT = {"int": "sitofp", "std::int64_t": "sitofp", "unsigned": "uitofp", "std::uint64_t": "uitofp"}
+
+
+WIDTH = {"int": 32, "unsigned": 32, "std::int64_t": 64, "std::uint64_t": 64}
+SAMPLES = {"int": [0, 1, -1, 7, -3, 16777217, -16777217, 2147483647, -2147483648, 123456789],
+           "unsigned": [0, 1, 7, 16777217, 2147483648, 4294967295, 4294967167],
+           "std::int64_t": [0, 1, -1, -3, 16777217, 9007199254740993, -9007199254740993, 2 ** 63 - 1, -2 ** 63],
+           "std::uint64_t": [0, 1, 16777217, 9007199254740993, 2 ** 63, 2 ** 64 - 1, 2 ** 64 - 1025],
+           "float": [0.0, 1.0, -1.5, 0.1, 16777216.0, 3.4028234663852886e38, 1e-45],
+           "double": [0.0, 1.0, -1.5, 0.1, 16777217.0, 1e300, 1e-300, 0.30000000000000004]}
+
+
+def _f32(x):
+    import struct
+    try:
+        return struct.unpack("f", struct.pack("f", x))[0]
+    except OverflowError:
+        return float("inf") if x > 0 else float("-inf")
+
+
+def cast_chain_eval(t, v, at):
+    """Constant evaluation of a pure chain of conversions applied to the one argument (value v of C++ type `at`);
+    None if the term is anything else.  Integers are carried as (bit pattern, width)."""
+    chain = []
+    while isinstance(t, tuple) and t[0] == 'cast':
+        chain.append((t[1], t[2]))
+        t = t[3]
+    if not (isinstance(t, tuple) and t[0] == 'arg'):
+        return None
+    cur = ('i', v % (1 << WIDTH[at]), WIDTH[at]) if at in WIDTH else ('f', _f32(v) if at == "float" else float(v))
+    for op, ty in reversed(chain):
+        w = int(ty[1:]) if ty[:1] == 'i' and ty[1:].isdigit() else None
+        if cur[0] == 'i':
+            _, b, cw = cur
+            sv = b - (1 << cw) if b >> (cw - 1) else b
+            if op == "sext" and w:
+                cur = ('i', sv % (1 << w), w)
+            elif op == "zext" and w:
+                cur = ('i', b, w)
+            elif op == "trunc" and w:
+                cur = ('i', b % (1 << w), w)
+            elif op in ("sitofp", "uitofp"):
+                x = float(sv if op == "sitofp" else b) if ty == "double" else None
+                if ty == "float":
+                    # one rounding, from the exact integer (float(int) rounds to double first: do it exactly)
+                    from fractions import Fraction
+                    n = sv if op == "sitofp" else b
+                    x = _round_int_f32(n)
+                if x is None:
+                    return None
+                cur = ('f', x)
+            else:
+                return None
+        else:
+            x = cur[1]
+            if op == "fpext":
+                cur = ('f', x)
+            elif op == "fptrunc" and ty == "float":
+                cur = ('f', _f32(x))
+            elif op in ("fptosi", "fptoui") and w:
+                import math
+                if math.isinf(x) or math.isnan(x):
+                    return None
+                n = int(x)
+                lo, hi = (-(1 << (w - 1)), (1 << (w - 1)) - 1) if op == "fptosi" else (0, (1 << w) - 1)
+                if not lo <= n <= hi:
+                    return None      # undefined conversion: no verdict from this sample
+                cur = ('i', n % (1 << w), w)
+            else:
+                return None
+    return cur[1] if cur[0] == 'f' else None
+
+
+def _round_int_f32(n):
+    """Round the exact integer n to binary32, ties to even (no detour through binary64)."""
+    if n == 0:
+        return 0.0
+    sgn, m = (-1, -n) if n < 0 else (1, n)
+    e = m.bit_length() - 24
+    if e <= 0:
+        return float(sgn * m)
+    q, r = m >> e, m & ((1 << e) - 1)
+    half = 1 << (e - 1)
+    if r > half or (r == half and (q & 1)):
+        q += 1
+    return float(sgn * (q << e))
+
+
+def h_factory(N, T, which, argtypes=None):
+    if argtypes:
+        args = [(t, ('x', j)) for j, t in enumerate(argtypes)]
+        call = "covfie::algebra::affine<%d, %s>::%s(%s)" % (N, T, which, ", ".join("a%d" % j for j in range(N)))
+        body = "  covfie::algebra::affine<%d, %s> r = %s;\n  %s" % (
+            N, T, call, " ".join("out[%d] = r(%d, %d);" % (i * (N + 1) + j, i, j) for i in range(N) for j in range(N + 1)))
+        return Harness("aff_%s_%s_%d_mix%s" % (which, T, N, "_".join(t.replace("std::", "").replace("_t", "") for t in argtypes)), args, body,
+                       out=(T, N * (N + 1)), meta={"kind": which, "N": N, "T": T, "argtypes": argtypes})
     args = [(T, ('x', j)) for j in range(N)] if which != "identity" else []
     call = {"translation": "covfie::algebra::affine<%d, %s>::translation(%s)" % (N, T, ", ".join("a%d" % j for j in range(N))),
             "scaling": "covfie::algebra::affine<%d, %s>::scaling(%s)" % (N, T, ", ".join("a%d" % j for j in range(N))),
@@ -108,6 +208,10 @@ def harnesses(tier):
     for N in Ns:
         for T in Ts:
             hs += [h_apply(N, T), h_compose(N, T), h_factory(N, T, "translation"), h_factory(N, T, "scaling"), h_factory(N, T, "identity"), h_layer(N, T, (N % 4) + 1)] + ([h_layer(N, T, 1)] if N > 1 else [])
+    for N in Ns:
+        for k, at in enumerate(MIXED[N]):
+            for T in (Ts if tier != "quick" else (Ts[(N + k) % 2],)):
+                hs += [h_factory(N, T, "translation", at), h_factory(N, T, "scaling", at)]
     # the layer contract along every other construction route (quick: one dimension per route)
     for i, route in enumerate(harness.ROUTES[1:]):
         for N in (Ns if tier != "quick" else (2 + i % 2,)):
@@ -121,7 +225,7 @@ def run(rep, tier, hs=None):
     for h in hs:
         N, T, kind = h.meta["N"], h.meta["T"], h.meta["kind"]
         tsz = 4 if T == "float" else 8
-        inst = "%s<%d,%s>" % (kind, N, T) + (" via " + h.meta["route"] if h.meta.get("route", "direct") != "direct" else "")
+        inst = "%s<%d,%s>" % (kind, N, T) + ("(" + ",".join(h.meta["argtypes"]) + ")" if h.meta.get("argtypes") else "") + (" via " + h.meta["route"] if h.meta.get("route", "direct") != "direct" else "")
         if h.error:
             loc, msg = harness.first_error(h)
             rep.fail("C09.compile", inst, loc, "does not compile: " + msg)
@@ -132,8 +236,10 @@ def run(rep, tier, hs=None):
             raise AnalysisBroken("C09 %s: unmodelled instruction %s at %s" % (inst, s.unknown[0]["op"], ir.where(s.unknown[0])))
         outs = s.outputs(h.out_index, *( (4, 'float') if h.meta['kind'] == 'layer' else (tsz, T)))
         pterms = [c.args[1 + i] for c in s.opaque_calls("_ZN5verif4sink") for i in range(len(c.args) - 1)] if kind == "layer" else list(outs.values())
-        pc = [c for t in pterms for c in ir.fp_casts(t)]
-        if pc:
+        pc = [c for t in pterms for c in ir.fp_casts(t)] if not h.meta.get("argtypes") else []
+        if h.meta.get("argtypes"):
+            pass
+        elif pc:
             rep.fail("C09.precision", inst, LAYER if kind == "layer" else ALG, "computation declared in %s changes floating-point precision on the way: %s" % (T, ir.show(pc[0][0])[:160]))
         else:
             rep.ok("C09.precision", inst)
@@ -169,14 +275,33 @@ def run(rep, tier, hs=None):
             for i in range(N):
                 for j in range(N + 1):
                     t = outs.get(tsz * (i * (N + 1) + j))
-                    if kind == "translation" and j == N:
+                    if (kind == "translation" and j == N) or (kind == "scaling" and i == j):
                         exp = h.atom(('x', i))
-                    elif kind == "scaling" and i == j:
-                        exp = h.atom(('x', i))
+                        at = (h.meta.get("argtypes") or [T] * N)[i]
+                        if at != T:
+                            exp = ('cast', DIRECT.get(at) or ("fpext" if (at, T) == ("float", "double") else "fptrunc"), T, exp)
                     else:
                         exp = ('cf', 1.0 if i == j else 0.0, T)
                     ii = "%s entry (%d,%d)" % (inst, i, j)
-                    if t != exp:
+                    if t != exp and h.meta.get("argtypes") and exp[0] == 'cast':
+                        # another chain of conversions of the same argument: compare the two by constant evaluation over
+                        # boundary values of the argument type; a difference is a violation with its witness, agreement
+                        # on every sample is no proof (undecided)
+                        at = h.meta["argtypes"][i]
+                        base = t
+                        while isinstance(base, tuple) and base[0] == 'cast':
+                            base = base[3]
+                        got = "entry (%d,%d) is %s, expected the direct conversion %s" % (i, j, ir.show(t, names) if t else "unwritten", ir.show(exp, names))
+                        if t is None or (isinstance(base, tuple) and base[0] == 'arg' and base != h.atom(('x', i))):
+                            rep.fail("C09.factory", ii, ALG, got)
+                            continue
+                        vals = [(v, cast_chain_eval(t, v, at), cast_chain_eval(exp, v, at)) for v in SAMPLES[at]]
+                        wit = [(v, a, b) for v, a, b in vals if a is not None and b is not None and a != b]
+                        if wit:
+                            rep.fail("C09.factory", ii, ALG, got + ": for argument %s = %r the entry is %r instead of %r" % (at, wit[0][0], wit[0][1], wit[0][2]))
+                        else:
+                            rep.undecided("C09.factory %s: %s; boundary samples do not separate the two" % (ii, got))
+                    elif t != exp:
                         rep.fail("C09.factory", ii, ALG, "entry (%d,%d) is %s, expected %s" % (i, j, ir.show(t, names) if t else "unwritten", ir.show(exp, names)))
                     else:
                         rep.ok("C09.factory", ii)
